@@ -76,6 +76,18 @@ def run(ctx):
                 if not ok:
                     ctx.violation("charindex-dim|fn=%s|%s" % (short(n), short(c).rsplit("::", 1)[-1]), sp_file_line(t.get("sp")),
                                   "`%s` is given `%s` (dimension %s) as a character index" % (short(c), expr_str(e, 60), d))
+            elif c and re.search(r"alloc::string::String::(insert|remove|insert_str|truncate|split_off|drain|replace_range)$", c) and len(t["args"]) >= 2:
+                # byte-index sinks: the position must be a byte offset obtained from the string itself at a character boundary
+                # (len, find, char_indices offsets, sums of len_utf8) - not an index counted over raw bytes or characters
+                e = f.expr(t["args"][1], 10, stop={"named"})
+                d = D.dim(f, e)
+                ctx.instance(1)
+                ok = d in ("B", "K")
+                ctx.oblig(ok, {"byte index argument": expr_str(e, 60), "of": short(c).rsplit("::", 1)[-1], "dimension": d}, "byte offset at a character boundary")
+                if not ok:
+                    ctx.violation("byteindex-dim|fn=%s|%s" % (short(n), short(c).rsplit("::", 1)[-1]), sp_file_line(t.get("sp")),
+                                  "`%s` is given `%s`, whose dimension is %s (%s): with a multi-byte character on the line the position can fall inside a character and "
+                                  "the edit panics" % (short(c), expr_str(e, 60), d, {"C": "a character count", "MIX": "bytes mixed with characters", "U": "not a boundary-safe byte offset"}.get(d, d)))
             elif c and c.endswith("Iterator::nth") and "Chars" in (t.get("arg_tys") or [""])[0]:
                 e = f.expr(t["args"][1], 10, stop={"named"})
                 d = D.dim(f, e)
@@ -153,6 +165,27 @@ def run(ctx):
         ctx.oblig(ok, {"Enter": "update_next before returning true"}, "dominance")
         if not ok:
             ctx.violation("enter-without-update_next", sp_file_line(hk.stmts(b)[0].get("sp")), "Enter can submit without copying the focused history line into the buffer: a stale line would be executed")
+    # update_next itself: it returns either because the draft already has the focus, or after it has copied the focused history line into
+    # the draft *and* moved the focus back to the draft - on every path (the edit that follows writes the draft and must be seen)
+    un = ctx.fn(T + "Terminal::update_next")
+    isn = [(b, t) for b, t, c in un.calls() if c == T + "Terminal::is_next"]
+    early = set()
+    for b, t in isn:
+        tt = un.term(t["t"]) if t.get("t") is not None else None
+        if tt and tt["k"] == "switch":
+            tg = {v: x for v, x in tt["targets"]}
+            early.add(tt["otherwise"] if 0 in tg else tg.get(1))
+    idx_w = {b for b, i, s_ in un.assigns() if [e.get("n") for e in s_["p"].get("pr", []) if isinstance(e, dict) and "f" in e][-1:] == ["index"]}
+    buf_w = {b for b, i, s_ in un.assigns() if [e.get("n") for e in s_["p"].get("pr", []) if isinstance(e, dict) and "f" in e][-1:] == ["buffer"]} | \
+            {b for b, t, c in un.calls() if c and (c.endswith("clone_from") or c.endswith("String::push_str") or c.endswith("clone_into")) and "buffer" in expr_str(un.expr(t["args"][0], 6), 120)}
+    rets_un = {b for b in un.live_blocks() if un.term(b)["k"] == "return"}
+    ctx.instance(1)
+    ok = bool(idx_w) and bool(buf_w) and not (un.reachable(0, avoid=idx_w | {x for x in early if x is not None}) & rets_un) \
+        and not (un.reachable(0, avoid=buf_w | {x for x in early if x is not None}) & rets_un)
+    ctx.oblig(ok, {"update_next": "draft focused already, or (copy + focus back) on every path", "focus writes": len(idx_w), "draft writes": len(buf_w)}, "must-pass-through")
+    if not ok:
+        ctx.violation("update_next-partial", un.file_line(), "update_next can return with a history line still focused without having copied it into the draft and moved the "
+                      "focus back: the following edit changes the hidden draft while the history line stays on screen, and the cursor leaves the shown line")
     gn = ctx.fn(T + "Terminal::get_next_command")
     finds = [b for b, t, c in gn.calls() if c and c.endswith("str>::find")]
     ctx.instance(1)
